@@ -84,11 +84,11 @@ Terminates == <>(phase = "done")
    resolved to byte positions by the harness's own format walkers. *)
 Fields == [
   zip |-> {"eocd.entries", "eocd.cdSize", "eocd.cdOffset", "eocd.commentLen", "cd.nameLen", "cd.extraLen", "cd.commentLen", "cd.compSize", "cd.usize", "cd.lfhOffset", "cd.z64ExtraSize", "lfh.nameLen", "lfh.extraLen", "lfh.compSize"},
-  pe |-> {"dos.lfanew", "coff.nsections", "coff.optSize", "opt.sizeOfHeaders", "opt.nDataDirs", "dd.certOffset", "dd.certSize", "sec.rawPtr", "sec.rawSize", "cert.length"},
-  cfb |-> {"hdr.sectorShift", "hdr.nFat", "hdr.dirStart", "hdr.miniFatStart", "hdr.nMiniFat", "hdr.difStart", "hdr.nDif", "hdr.difat0", "dir.rootStart", "dir.rootSize", "dir.child", "dir.left", "fat.first"},
+  pe |-> {"dos.lfanew", "coff.nsections", "coff.optSize", "opt.sectionAlignment", "opt.fileAlignment", "opt.sizeOfHeaders", "opt.nDataDirs", "dd.certOffset", "dd.certSize", "sec.rawPtr", "sec.rawSize", "cert.length"},
+  cfb |-> {"hdr.sectorShift", "hdr.nFat", "hdr.dirStart", "hdr.miniFatStart", "hdr.nMiniFat", "hdr.difStart", "hdr.nDif", "hdr.difat0", "dir.rootStart", "dir.rootSize", "dir.child", "dir.left", "dir.nameLen", "fat.first"},
   cab |-> {"hdr.cbCabinet", "hdr.coffFiles", "hdr.cFolders", "hdr.cFiles", "hdr.cbCFHeader", "sig.offset", "sig.size"},
   apkblock |-> {"blk.sizeTail", "blk.sizeHead", "blk.pairLen", "blk.signersLen", "blk.signerLen", "blk.signedDataLen", "eocd.cdOffset"},
-  macho |-> {"hdr.ncmds", "hdr.sizeofcmds", "lc.cmdsize", "cs.dataoff", "cs.datasize", "sb.length", "sb.count", "sb.blobOffset", "cd.length", "cd.hashOffset", "cd.nCodeSlots", "cd.identOffset"},
+  macho |-> {"hdr.ncmds", "hdr.sizeofcmds", "lc.cmdsize", "cs.dataoff", "cs.datasize", "sb.length", "sb.count", "sb.blobOffset", "cd.length", "cd.hashOffset", "cd.nCodeSlots", "cd.identOffset", "cd.nSpecialSlots", "cd.codeLimit", "cd.hashSize", "cd.hashType", "cd.pageSizeLog2"},
   xar |-> {"hdr.size", "hdr.tocLenZ", "hdr.tocLen", "toc.checksumSize", "toc.sigOffset", "toc.sigSize", "toc.xsigSize", "toc.xsigOffset", "toc.dataLength", "toc.dataOffset", "toc.dataSize"},
   dmg |-> {"koly.dataForkLen", "koly.xmlOffset", "koly.xmlLength", "koly.sigOffset", "koly.sigLength"},
   deb |-> {"ar.size0", "ar.size1", "ar.sizeLast"},
